@@ -74,7 +74,7 @@ CLAIMED = {
  "C12": dict(
    category="exploration",
    technique="stateful property-based testing (rapid): model-based oracle plus round-trip invariant (loaded + delta = current), aliasing metamorphic check (untouched sibling unchanged)",
-   text="Generated edit/fork/merge histories over families of Properties, Relationships and Nodes sharing one loaded state (built the way the pg and neo4j drivers build loaded entities); after every step every entity is compared with a last-edit-wins model, its change sets must be disjoint and, applied to the loaded state, reproduce the current state; a fourth sub-check (pgarray) reads the text[] literal that carries tracked deletions to the pg batch update with an array_in reader written from the PostgreSQL manual; the node's own slices are handed to AddKinds / DeleteKinds; a third sub-check makes the kind values for one fresh name in 2-16 goroutines at the same moment and deletes / adds kinds across them; nil is one of the property values; a second scenario builds all nodes from one shared Kinds slice.",
+   text="Generated edit/fork/merge histories over families of Properties, Relationships and Nodes sharing one loaded state (built the way the pg and neo4j drivers build loaded entities); after every step every entity is compared with a last-edit-wins model, its change sets must be disjoint and, applied to the loaded state, reproduce the current state; a fifth sub-check (pgstmt) reads the relationship property statements of drivers/pg/statements.go from the source, evaluates their SET expression with pgsim on stored properties and the tracked delta and demands the entity's current state; a fourth sub-check (pgarray) reads the text[] literal that carries tracked deletions to the pg batch update with an array_in reader written from the PostgreSQL manual; the node's own slices are handed to AddKinds / DeleteKinds; a third sub-check makes the kind values for one fresh name in 2-16 goroutines at the same moment and deletes / adds kinds across them; nil is one of the property values; a second scenario builds all nodes from one shared Kinds slice.",
    note="Bounded: <=5 entities, <=14 (24) steps, 4-key/4-kind alphabets; Merge judged only inside a family sharing a loaded state (batch upsert of fresh entities is outside the statement). Open finding: Properties.Merge copies the other side's whole map (excluded by construction).",
    design="§4 C12"),
  "C13": dict(
